@@ -129,6 +129,10 @@ type Ctx struct {
 	nviol     int
 	violSigs  map[string]int
 	start     time.Time
+
+	// SuppressFunctional makes Violation only count (used by C16, which decides
+	// on race detector reports and reuses the workloads of other properties).
+	SuppressFunctional bool
 }
 
 const maxDistinctPerBatch = 400000
@@ -167,6 +171,13 @@ func Hash64(s string) uint64 {
 
 // Eval counts n evaluations.
 func (c *Ctx) Eval(n int64) { c.Obs("evaluations", n) }
+
+// Counter returns the current value of a named counter.
+func (c *Ctx) Counter(key string) int64 {
+	c.mu.Lock()
+	defer c.mu.Unlock()
+	return c.counters[key]
+}
 
 // Obs adds n to a named counter.
 func (c *Ctx) Obs(key string, n int64) {
@@ -245,6 +256,11 @@ func (c *Ctx) WantSample() bool {
 func (c *Ctx) Violation(sig, what string, witness interface{}) {
 	c.mu.Lock()
 	defer c.mu.Unlock()
+	if c.SuppressFunctional {
+		c.counters["functional_violations_of_other_properties_suppressed"]++
+		fmt.Fprintf(os.Stderr, "SUPPRESSED %s: %s\n", sig, what)
+		return
+	}
 	c.nviol++
 	c.violSigs[sig]++
 	if c.violSigs[sig] > maxViolationsPerSig {
